@@ -132,7 +132,8 @@ def _check_one(spec, method, args, kmask, kvals, extra, xv):
         if kmask[j]:
             kwargs["p%d" % i] = kvals[j]
     if extra:
-        kwargs["zz"] = xv
+        # a surplus keyword; for methods it may be spelled like the (already bound) first parameter
+        kwargs["self" if (method and xv < 0) else "zz"] = xv
     args = tuple([a for a in args])      # realises the *length*; the values stay symbolic
     # The oracle only moves values around: it runs natively on the (now concrete) call shape with the
     # symbolic values as opaque objects.
@@ -155,6 +156,8 @@ def _check_one(spec, method, args, kmask, kvals, extra, xv):
                     expected[nm] = ba.arguments[nm]
     if ba is None:
         H.assume(False)          # Python rejects the call: outside the property's domain
+    if method and "self" in kwargs and not any(k == "po" for k, _ in spec):
+        H.assume(False)          # 'self' is positional-or-keyword here: Python itself rejects obj.f(self=...)
     kw_before = dict(kwargs)
     got = filter_args(f, [], args, kwargs)
     if kwargs != kw_before:
